@@ -148,6 +148,32 @@ impl Host {
     }
 }
 
+/// Verification hook: read-only view of the per-host socket tables.
+#[cfg(feature = "verif-hooks")]
+#[derive(Debug, Clone, Default, PartialEq, Eq)]
+pub struct VerifHostTables {
+    pub udp_binds: Vec<u16>,
+    pub tcp_binds: Vec<u16>,
+    pub tcp_bind_queue_lens: Vec<usize>,
+    pub tcp_streams: Vec<(SocketAddr, SocketAddr)>,
+    pub next_ephemeral_port: u16,
+    pub multicast_memberships: usize,
+}
+
+#[cfg(feature = "verif-hooks")]
+impl Host {
+    pub(crate) fn verif_tables(&self) -> VerifHostTables {
+        VerifHostTables {
+            udp_binds: self.udp.binds.keys().copied().collect(),
+            tcp_binds: self.tcp.binds.keys().copied().collect(),
+            tcp_bind_queue_lens: self.tcp.binds.values().map(|b| b.deque.len()).collect(),
+            tcp_streams: self.tcp.sockets.keys().map(|p| (p.local, p.remote)).collect(),
+            next_ephemeral_port: self.next_ephemeral_port,
+            multicast_memberships: 0,
+        }
+    }
+}
+
 pub(crate) struct HostTimer {
     /// Host elapsed time.
     elapsed: Duration,
